@@ -33,10 +33,10 @@ def BOUNDS(tier):
 
 
 def REQUIRED_COVER(tier):
-    return {'opt:plain', 'opt:idx+crc+cache', 'enc:b64', 'entry:Builder', 'entry:Slice', 'exotic', 'cells:257', 'payload:65536'}
+    return {'opt:plain', 'opt:idx+crc+cache', 'enc:b64', 'entry:Builder', 'entry:Slice', 'exotic', 'cells:257', 'payload:65536', 'objects'}
 
 
-def shards(tier, seed):
+def shards(tier, seed, objects=True):
     fam = bocfam.family(tier, seed)
     names = [n for n, _ in fam]
     heavy = [n for n in names if n.startswith('cells:6') or n.startswith('payload:6') or n.startswith('payload:3')]
@@ -44,6 +44,8 @@ def shards(tier, seed):
     k = 16 if tier == 'quick' else 64
     out = [{'fn': 'shard_names', 'args': {'part': p, 'parts': k}} for p in range(k)]
     out += [{'fn': 'shard_one', 'args': {'name': n}, 'prio': 9} for n in heavy]
+    if objects:
+        out += [{'fn': 'shard_objects', 'args': {'part': p, 'parts': 8}} for p in range(8)]
     return out
 
 
@@ -123,6 +125,58 @@ def case_dag(rec, name, opt_i, tier=None):
     if rc.refs or len(rc.bits) % 8:
         rec.nontriv((name, on))
     rec.outcome('same')
+
+
+def case_objects(rec, name, i, j, unshared):
+    """round trip on an object graph with a past: the sub-DAGs at nodes i and j were serialised before (i = j = -1: no past),
+    optionally with equal sub-cells built as DISTINCT objects; then every node's to_boc must parse back to that node"""
+    from pytoniq_core.boc import Cell
+    from .common import from_lib
+    rc = _find('thorough' if name.startswith('shape:4') else rec.tier, rec.seed, name)()
+    root = bocfam.to_lib_unshared(rc) if unshared else to_lib(rc)
+    nodes = bocfam.lib_nodes(root)
+    args = {'name': name, 'i': i, 'j': j, 'unshared': unshared}
+    rec.case('objects')
+    rec.state(('objects', name, i, j, unshared))
+    rec.nontriv(('objects', name, i, j, unshared))
+    want = [(n.hash, lib_canon(n)) for n in nodes]
+    try:
+        for k in (i, j):
+            if k >= 0:
+                nodes[k].to_boc(has_idx=bool(k % 2))
+        for k, n in enumerate(nodes):
+            for oi in (0, 5):
+                back = Cell.one_from_boc(n.to_boc(**bocfam.OPTION_SETS[oi]))
+                rec.trans(2)
+                rec.trace()
+                if back.hash != want[k][0] or lib_canon(back) != want[k][1]:
+                    rec.violation('objects:roundtrip', f'{name} ({"equal sub-cells as distinct objects, " if unshared else ""}after to_boc of nodes {[x for x in (i, j) if x >= 0]}): '
+                                  f'to_boc of node {k} parses back to another cell', 'case_objects', args)
+                    return
+    except Exception as e:
+        rec.violation('objects:raises', f'{name} ({"distinct objects, " if unshared else ""}after to_boc of nodes {[x for x in (i, j) if x >= 0]}): {exc_name(e)}: {str(e)[:200]}', 'case_objects', args)
+        return
+    rec.covered('objects')
+    rec.outcome('objects-ok')
+
+
+def shard_objects(rec, part, parts):
+    fam = [(n, mk) for n, mk in bocfam.family(rec.tier, rec.seed) if n.startswith('shape:')]
+    for idx, (name, mk) in enumerate(fam):
+        if idx % parts != part:
+            continue
+        rc = mk()
+        if not rc.refs:
+            continue
+        for unshared in (False, True):
+            n = len(bocfam.lib_nodes(bocfam.to_lib_unshared(rc) if unshared else to_lib(rc)))
+            if n > 8:
+                continue
+            case_objects(rec, name, -1, -1, unshared)
+            for i in range(n):
+                for j in range(n):
+                    if i != j:
+                        case_objects(rec, name, i, j, unshared)
 
 
 def shard_names(rec, part, parts):
